@@ -177,9 +177,9 @@ fn lib_decode_hdr(full: &[u8], wire_order: Option<&[u8]>) -> String {
 }
 
 const IFACES: &[&str] = &["a.b", "org.freedesktop.DBus", "a.b.c.d.e", "x1._y.z", "bad", "a..b", "1a.b", "a.b\u{e9}"];
-const MEMBERS: &[&str] = &["M", "Ping", "Get_All9", "abcdefgh", "1bad", "a.b", ""];
-const PATHS: &[&str] = &["/", "/a", "/org/x_1", "/a/b/c/d", "a", "/a/", "//"];
-const BUSES: &[&str] = &[":1.5", "a.b", "org.x-y.z", ":1.42.7", "a", ".a.b", "a.1b"];
+const MEMBERS: &[&str] = &["M", "Ping", "Get_All9", "abcdefgh", "_x", "1bad", "a.b", "", "-Frob", ".Get", " Get", "Ge-t"];
+const PATHS: &[&str] = &["/", "/a", "/org/x_1", "/a/b/c/d", "/0", "/org/0a/7", "/_", "a", "/a/", "//", "/a-b", "/a/.b"];
+const BUSES: &[&str] = &[":1.5", "a.b", "org.x-y.z", ":1.42.7", "a._7", "a", ".a.b", "a.1b", "org.7zip.x", "a.b.2nd"];
 const ERRS: &[&str] = &["a.b.Err", "org.freedesktop.DBus.Error.Failed", "E", "a.b-c"];
 
 fn pick_name(rng: &mut Prng, pool: &[&str], pad_to: Option<usize>) -> String {
@@ -300,6 +300,17 @@ pub fn run_c05(cfg: &Cfg) {
                             nfds += 1;
                         }
                     }
+                }
+                // `dynheader.num_fds` is a public field (filled in when a message is received, left over when a message
+                // object is reused or forwarded): UNIX_FDS on the wire must be the number of descriptors ATTACHED, whatever
+                // this field says
+                match rng.below(4) {
+                    0 => msg.dynheader.num_fds = Some(nfds),
+                    1 => {
+                        msg.dynheader.num_fds = Some(*rng.pick(&[0u32, 1, 2, 3, 7]));
+                        out.hit("stale_num_fds");
+                    }
+                    _ => {}
                 }
                 let serial = *rng.pick(&[1u32, 2, 255, 256, 0x01020304, u32::MAX]);
                 let mut buf = Vec::new();
@@ -536,6 +547,63 @@ pub fn run_c06(cfg: &Cfg) {
     let n = if cfg.thorough { 4000 } else { 400 };
     let mut pool: Vec<Vec<u8>> = Vec::new();
     let mut pair = peer::connect_pair(false);
+    // systematic: every known field twice (same value / another value, adjacent / separated by the other fields, both
+    // byte orders) in an otherwise valid header of every message type: "no known code twice" must hold for each of the
+    // nine codes on its own
+    for typ in 1..=4u8 {
+        for code in 1..=9u8 {
+            for variant in 0..8u32 {
+                let val_of = |code: u8, alt: bool| -> (Ty, Val) {
+                    match code {
+                        1 => (Ty::Base('o'), s(if alt { "/b" } else { "/a" })),
+                        2 => (Ty::Base('s'), s(if alt { "c.d" } else { "a.b" })),
+                        3 => (Ty::Base('s'), s(if alt { "N" } else { "M" })),
+                        4 => (Ty::Base('s'), s(if alt { "a.b.F" } else { "a.b.E" })),
+                        5 => (Ty::Base('u'), Val::Num(if alt { 2000 } else { 1000 })),
+                        6 | 7 => (Ty::Base('s'), s(if alt { ":1.9" } else { ":1.5" })),
+                        8 => (Ty::Base('g'), s(if alt { "u" } else { "" })),
+                        _ => (Ty::Base('u'), Val::Num(if alt { 1 } else { 0 })),
+                    }
+                };
+                let req_codes: &[u8] = match typ {
+                    1 => &[1, 3],
+                    4 => &[1, 3, 2],
+                    2 => &[5],
+                    _ => &[4, 5],
+                };
+                let mut fields: Vec<(u8, Ty, Val)> = Vec::new();
+                for c in req_codes {
+                    let (t, v) = val_of(*c, false);
+                    fields.push((*c, t, v));
+                }
+                if !req_codes.contains(&code) {
+                    let (t, v) = val_of(code, false);
+                    fields.push((code, t, v));
+                }
+                let valid = Foreign { le: variant & 1 == 0, typ, flags: 0, version: 1, serial: 5, body: vec![], fields: fields.clone() };
+                let (t, v) = val_of(code, variant & 2 != 0);
+                let first = fields.iter().position(|f| f.0 == code).unwrap();
+                let at = if variant & 4 != 0 { first + 1 } else if first == 0 { fields.len() } else { 0 };
+                fields.insert(at.min(fields.len()), (code, t, v));
+                let dup = Foreign { fields, ..Foreign { le: valid.le, typ, flags: 0, version: 1, serial: 5, body: vec![], fields: vec![] } };
+                for (f, is_dup) in [(&valid, false), (&dup, true)] {
+                    let bytes = f.write();
+                    let obs = lib_decode_msg(&bytes, None);
+                    let req = format!("h.msg {}", hex(&bytes));
+                    // directly: the valid header is accepted (code 8 = SIGNATURE "" with empty body, code 9 = UNIX_FDS 0 are fine),
+                    // the one with the field twice is refused
+                    if is_dup && obs != "reject" {
+                        out.violation(&req, &format!("header of type {} with field code {} twice was accepted: {}", typ, code, obs));
+                    }
+                    if !is_dup && obs == "reject" {
+                        out.violation(&req, &format!("valid header of type {} (fields incl. code {}) was refused", typ, code));
+                    }
+                    out.hit(if is_dup { "duplicate_field" } else { "duplicate_base_valid" });
+                    out.case(&req, &obs, true);
+                }
+            }
+        }
+    }
     for i in 0..n {
         let typ = *rng.pick(&[1u8, 1, 1, 2, 2, 3, 3, 4, 4, 4, 1, 2, 3, 4, 0, 5]);
         let mut fields: Vec<(u8, Ty, Val)> = Vec::new();
